@@ -89,6 +89,8 @@ def top_int(w, signed=False, term=None):
 
 
 def sym_int(vars_, name, w, signed=False, term=None):
+    if term is None:
+        term = ("sym", name, len(vars_.names))
     return mk_int(w, signed, tuple(vars_.fresh("%s.%d" % (name, i)) for i in range(w)), term=term)
 
 
